@@ -16,9 +16,9 @@ func github.com/ipld/go-ipld-prime/traversal.Progress.WalkAdv
   modifies Budget.LinkBudget, Budget.NodeBudget
 
 # datamodel.Path as a finite sequence of segments (Path is an immutable value: a slice of PathSegment)
-fn pathLen(p datamodel.Path) int
-fn pathSeg(p datamodel.Path, i int) datamodel.PathSegment
-axiom pathLen_nonneg: forall p datamodel.Path {pathLen(p)} :: pathLen(p) >= 0
+fn pathLen(p ref) int
+fn pathSeg(p ref, i int) ref
+axiom pathLen_nonneg: forall p ref {pathLen(p)} :: pathLen(p) >= 0
 func github.com/ipld/go-ipld-prime/datamodel.Path.Len
   assumed
   modifies nothing
